@@ -180,16 +180,25 @@ def condEqPos (res : Var) (body : Lin) (rhs : Rat) (B : Bnds) : Out :=
     (if (B res).fixedVal != 0 then { cons := [.linRhs .eq body rhs] } else {})
   else { cons := [.indLin res 1 .eq body rhs] }
 
-/-- `ConvertCtxNeg`: `res = 0 ⇒ body ≤ rhs - eps ∨ body ≥ rhs + eps` via two fresh binaries -/
+/-- separation bounds of the negative part (as of /repo c58c7b7): for an integer body the nearest integers strictly
+below / above `rhs` (`ceil(rhs) - 1`, `floor(rhs) + 1`; `rhs` may be fractional), else `rhs ∓ eps`.
+History: before c58c7b7 integer bodies used `rhs ∓ 1`, which cut off the integers next to a fractional `rhs`
+(finding C01-condeq-fractional-rhs, found by this check). -/
+def condEqLo (o : Opts) (isI : Bool) (rhs : Rat) : Rat :=
+  if isI then (rhs.ceil : Rat) - 1 else rhs - cmpEpsOf o isI
+def condEqHi (o : Opts) (isI : Bool) (rhs : Rat) : Rat :=
+  if isI then (rhs.floor : Rat) + 1 else rhs + cmpEpsOf o isI
+
+/-- `ConvertCtxNeg`: `res = 0 ⇒ body ≤ lo ∨ body ≥ hi` via two fresh binaries -/
 def condEqNeg (res : Var) (body : Lin) (rhs : Rat) (B : Bnds) (o : Opts) (n : Nat) : Out :=
   if body.isEmpty then
     (if rhs == 0 then { narrow := [(res, { lb := some 1, ub := some 1 })] } else {})
   else if !(B res).isFixed || (B res).fixedVal == 0 then
-    let eps := cmpEpsOf o (linBnd B body).2.2
+    let isI := (linBnd B body).2.2
     { vars := [VarInfo.binary, VarInfo.binary],
       cons := [.linRhs .ge [(1, n), (1, n + 1), (1, res)] 1,
-               .indLin n 1 .le body (rhs - eps),
-               .indLin (n + 1) 1 .ge body (rhs + eps)] }
+               .indLin n 1 .le body (condEqLo o isI rhs),
+               .indLin (n + 1) 1 .ge body (condEqHi o isI rhs)] }
   else {}
 
 /-- `CondEQConverter_MIP::Convert` for the cases converted here (more than one variable, or a variable
@@ -373,5 +382,37 @@ def gQFC (res : Var) (lin : Lin) (q : Quad) (c : Rat) (ctx : Ctx) : Out :=
 def gDivConst (res a b : Var) (B : Bnds) : Out :=
   if (B b).isFixed then { cons := [.linRhs .eq [((B b).fixedVal, res), (-1, a)] 0] }
   else { unmodelled := true }
+
+/-! ## unary encoding of an integer variable (`MIPFlatConverter::CreateUnaryEncoding`)
+
+For `v ∈ [lb, ub]` integer and one binary flag per value (the result variables of the reified comparisons
+`v == j` where they exist, fresh binaries for the other values): `Σ flag_j = 1` and `Σ j·flag_j - v = 0`.
+Not correspondence-checked per gadget (the step runs in `ConvertMaps` over an `unordered_map`); the end-to-end
+oracle covers it semantically. -/
+
+/-- `Σ j·flag_j` with values `k, k+1, …` in flag order -/
+def uencLin : Int → List Var → Lin
+  | _, [] => []
+  | k, f :: t => ((k : Rat), f) :: uencLin (k + 1) t
+
+def gUnaryEnc (v : Var) (lb : Int) (flags : List Var) : Out :=
+  { cons := [.linRhs .eq (ones flags) 1, .linRhs .eq (uencLin lb flags ++ [(-1, v)]) 0] }
+
+/-- every flag is the reification of `w = its value` -/
+def uencOK (y : Asg) (w : Rat) : Int → List Var → Prop
+  | _, [] => True
+  | k, f :: t => (y f = 1 ↔ w = (k : Rat)) ∧ uencOK y w (k + 1) t
+
+
+/-! ## mul.h — product with a binary variable
+
+`LinearizeProductWithBinaryVar(c, x, y)`: `c·b·o` becomes `c·r` with `r = IfThen(b, o, zero)` where `zero` is the
+fixed variable 0 (`MakeFixedVar(0.0)`); `r` gets a fresh id, its bounds are those of `PreprocessConstraint(IfThen)`.
+Only the term-level step is modelled (the enclosing row is re-sorted/merged by `sort_terms`). -/
+def gMulBinTerm (b o zero : Var) (B : Bnds) (n : Nat) : Out :=
+  { vars := [{ lb := match (B o).lb with | some l => some (if l ≤ 0 then l else 0) | none => none,
+               ub := match (B o).ub with | some u => some (if 0 ≤ u then u else 0) | none => none,
+               isInt := (B o).isInt }],
+    cons := [.func n .none (.ifthen b o zero)] }
 
 end MpVerif.C01
